@@ -61,6 +61,9 @@ type attPlan struct {
 	Files   []attFile `json:"files"`
 	Cuts    []int     `json:"cuts"` // stream offsets at which a new write starts (besides 0); empty = one unit per write
 	Mode    string    `json:"partition"`
+	// Order of the units of several files: "" sequential (1211, chunks, 1212 per file); "announce-first" all 0x1211 up front;
+	// "interleaved" chunks of all files round-robin, then the 0x1212s; "late-1212" the 0x1212 of a file after the next file's 0x1211
+	Order string `json:"order,omitempty"`
 }
 
 func attContent(seed uint64, n int) []byte {
@@ -103,46 +106,110 @@ func attBuild(p *attPlan) *attBuilt {
 	for i := range b.completeAt {
 		b.completeAt[i] = -1
 	}
-	for i, f := range p.Files {
+	got := make([][]ref.Range, len(p.Files))
+	chunk := func(i int, c [2]int) {
 		af := b.files[i]
+		data := append(att.ChunkHeader(d, af.Name, uint32(c[0]), uint32(c[1])), af.Content[c[0]:c[0]+c[1]]...)
+		b.units = append(b.units, att.Unit{Data: data, File: i, Off: uint32(c[0]), Len: uint32(c[1])})
+		got[i] = append(got[i], ref.Range{Off: uint32(c[0]), Len: uint32(c[1])})
+		if b.completeAt[i] < 0 && len(ref.MissingRanges(af.Size, got[i])) == 0 {
+			b.completeAt[i] = len(b.units) - 1
+		}
+	}
+	c1211 := func(i int) {
 		s := serial
-		ctrl(0x1211, att.Body1211(af, byte(i%5)), i)
+		ctrl(0x1211, att.Body1211(b.files[i], byte(i%5)), i)
 		b.expect = append(b.expect, general(0x1211, s))
-		var got []ref.Range
-		chunk := func(c [2]int) {
-			data := append(att.ChunkHeader(d, af.Name, uint32(c[0]), uint32(c[1])), af.Content[c[0]:c[0]+c[1]]...)
-			b.units = append(b.units, att.Unit{Data: data, File: i, Off: uint32(c[0]), Len: uint32(c[1])})
-			got = append(got, ref.Range{Off: uint32(c[0]), Len: uint32(c[1])})
-			if b.completeAt[i] < 0 && len(ref.MissingRanges(af.Size, got)) == 0 {
-				b.completeAt[i] = len(b.units) - 1
+	}
+	c1212 := func(i int) {
+		af := b.files[i]
+		miss := ref.MissingRanges(af.Size, got[i])
+		body := append([]byte{byte(len(af.Name))}, af.Name...)
+		body = append(body, byte(i%5))
+		if len(miss) == 0 {
+			body = append(body, 0, 0)
+		} else {
+			body = append(body, 1, byte(len(miss)))
+			for _, m := range miss {
+				body = append(body, byte(m.Off>>24), byte(m.Off>>16), byte(m.Off>>8), byte(m.Off), byte(m.Len>>24), byte(m.Len>>16), byte(m.Len>>8), byte(m.Len))
 			}
-		}
-		r9212 := func() *ref.Reply {
-			miss := ref.MissingRanges(af.Size, got)
-			body := append([]byte{byte(len(af.Name))}, af.Name...)
-			body = append(body, byte(i%5))
-			if len(miss) == 0 {
-				body = append(body, 0, 0)
-			} else {
-				body = append(body, 1, byte(len(miss)))
-				for _, m := range miss {
-					body = append(body, byte(m.Off>>24), byte(m.Off>>16), byte(m.Off>>8), byte(m.Off), byte(m.Len>>24), byte(m.Len>>16), byte(m.Len>>8), byte(m.Len))
-				}
-			}
-			return &ref.Reply{ID: 0x9212, Body: body}
-		}
-		for _, c := range f.Chunks {
-			chunk(c)
 		}
 		ctrl(0x1212, att.Body1211(af, byte(i%5)), i)
-		b.expect = append(b.expect, r9212())
-		if len(f.Resend) > 0 {
-			for _, c := range f.Resend {
-				chunk(c)
+		b.expect = append(b.expect, &ref.Reply{ID: 0x9212, Body: body})
+	}
+	resend := func(i int) {
+		if len(p.Files[i].Resend) > 0 {
+			for _, c := range p.Files[i].Resend {
+				chunk(i, c)
 			}
-			ctrl(0x1212, att.Body1211(af, byte(i%5)), i)
-			b.expect = append(b.expect, r9212())
+			c1212(i)
 		}
+	}
+	switch p.Order {
+	case "announce-first":
+		for i := range p.Files {
+			c1211(i)
+		}
+		for i, f := range p.Files {
+			for _, c := range f.Chunks {
+				chunk(i, c)
+			}
+			c1212(i)
+			resend(i)
+		}
+	case "interleaved":
+		for i := range p.Files {
+			c1211(i)
+		}
+		for k := 0; ; k++ {
+			any := false
+			for i, f := range p.Files {
+				if k < len(f.Chunks) {
+					chunk(i, f.Chunks[k])
+					any = true
+				}
+			}
+			if !any {
+				break
+			}
+		}
+		for i := range p.Files {
+			c1212(i)
+		}
+		for i := range p.Files {
+			resend(i)
+		}
+	case "late-1212":
+		for i, f := range p.Files {
+			c1211(i)
+			if i > 0 {
+				c1212(i - 1) // the previous file's completion arrives after this file was announced
+				resend(i - 1)
+			}
+			for _, c := range f.Chunks {
+				chunk(i, c)
+			}
+		}
+		if n := len(p.Files); n > 0 {
+			c1212(n - 1)
+			resend(n - 1)
+		}
+	default:
+		for i, f := range p.Files {
+			c1211(i)
+			for _, c := range f.Chunks {
+				chunk(i, c)
+			}
+			c1212(i)
+			resend(i)
+		}
+	}
+	// sentinel: a last control frame (0x1211 for a name that was not announced). The server answers control frames in
+	// order, so once its reply is in, every earlier reply has been produced — "all replies seen" is decided by order.
+	{
+		s := serial
+		ctrl(0x1211, att.Body1211(att.File{Name: []byte("~sentinel~"), Size: 0}, 0), -1)
+		b.expect = append(b.expect, general(0x1211, s))
 	}
 	for _, u := range b.units {
 		b.stream = append(b.stream, u.Data...)
@@ -189,7 +256,7 @@ func attRun(p *attPlan, tcp bool, tcpAddr string) (viol [][2]string, incon bool)
 		var started atomic.Int64
 		res = att.RunTCP(tcpAddr, writes, &started, len(b.expect))
 	} else {
-		res = att.RunPipe(consts.ActiveSafetyType(p.Dialect), writes, func(started *atomic.Int64) attachment.FileEventer {
+		res = att.RunPipe(consts.ActiveSafetyType(p.Dialect), writes, len(b.expect), func(started *atomic.Int64) attachment.FileEventer {
 			rec = &att.Recorder{Started: started}
 			return rec
 		})
@@ -322,9 +389,9 @@ var attMarker = []byte{0x30, 0x31, 0x63, 0x64}
 
 // attName: arbitrary bytes of length 1..max without leading/trailing NUL; optionally containing the chunk marker.
 func attName(g gen.G, max int, marker bool, uniq int) []byte {
-	n := 1 + g.Intn(max-4)
+	n := 1 + g.Intn(max-2)
 	if g.Chance(1, 6) {
-		n = max - 4
+		n = max - 2 // with the 2-byte unique suffix: exactly the widest name the field can carry
 	}
 	b := g.Bytes(n)
 	if g.Chance(1, 2) {
@@ -369,10 +436,14 @@ func attGenPlan(g gen.G, idx int, gaps bool) *attPlan {
 	}
 	p.TermID, p.AlarmID = core.Hex(tid), core.Hex(aid)
 	maxName := 50
-	if d == consts.ActiveSafetyHLJ && g.Chance(1, 3) {
-		maxName = 200
+	if d == consts.ActiveSafetyHLJ && g.Chance(1, 2) {
+		maxName = core.Pick(g.Rand, []int{120, 200, 245, 255}) // length-prefixed header: up to 255 bytes
 	}
 	nf := 1 + g.Intn(4)
+	budget := 1023 - 30 - 40 - 32 - 2 - 4*45 // what the 0x1210 body can spend on names beyond four short ones
+	if nf > 1 {
+		p.Order = core.Pick(g.Rand, []string{"", "", "announce-first", "interleaved", "late-1212"})
+	}
 	for i := 0; i < nf; i++ {
 		cs := 1 + g.Intn(4096)
 		if g.Chance(1, 3) {
@@ -382,7 +453,13 @@ func attGenPlan(g gen.G, idx int, gaps bool) *attPlan {
 		if g.Chance(1, 8) {
 			size = 1
 		}
-		f := attFile{Name: core.Hex(attName(g, maxName, marker && g.Bool(), i)), Size: size, ContSd: g.U64()}
+		mn := maxName
+		if budget < mn+8 { // the 0x1210 body (10-bit length field) must hold every announced name: keep the sum below 1023 bytes
+			mn = 40
+		}
+		nameBytes := attName(g, mn, marker && g.Bool(), i)
+		budget -= len(nameBytes) + 5
+		f := attFile{Name: core.Hex(nameBytes), Size: size, ContSd: g.U64()}
 		var chunks [][2]int
 		for off := 0; off < size; off += cs {
 			l := cs
